@@ -954,6 +954,20 @@ func (x *c07Run) runCOSE() {
 // ---------------------------------------------------------------------------------------------
 
 func replayC07(c *vf.Ctx, data json.RawMessage) {
+	var tie struct {
+		Tie *c07TieCase `json:"tie"`
+	}
+	if json.Unmarshal(data, &tie) == nil && tie.Tie != nil {
+		d, err := vf.StartDriver()
+		if err != nil {
+			c.Fail(vf.Violation{Kind: "correspondence", Class: "driver-start", What: err.Error()})
+			return
+		}
+		defer d.Close()
+		c07OracleOnce.Do(c07InitOracles)
+		execC07Tie(c, d, *tie.Tie)
+		return
+	}
 	var cs c07Case
 	if err := json.Unmarshal(data, &cs); err != nil {
 		c.Fail(vf.Violation{Kind: "property", Class: "c07-replay-format", What: err.Error()})
